@@ -17,6 +17,7 @@ GROUP_FUNCS = {
     'cli': 'the naming of output files in dcmstack_cli.main',
     'group': 'the placement step of parse_and_group',
     'filter': 'make_key_regex_filter with its inner function',
+    'insertall': '_insert as a whole (setting the per-slice dictionaries of other aside and back around the try block, the loops over classifications and keys)',
     'content': 'filter_meta, clear_slice_meta, get_keys (whole methods over the nested dictionaries)',
     'orient': 'the voxel_order checks of reorder_voxels',
     'header': 'the repetition-time, dim_info and slice-timing blocks of to_nifti', 'data': 'the trimming block and file index expressions of get_data'}
